@@ -349,23 +349,23 @@ func cmdCheck(args []string) {
 		"property_id": *prop, "tier": *tier, "seed": seed, "level": "proof",
 		"coverage": map[string]interface{}{
 			"obligations": claimedN, "discharged": discharged,
-			"checker_cmd":   fmt.Sprintf("/verif/bin/govc check --prop %s --tier %s  (VC generation over go/ssa of /repo working tree; z3 5.1.0, z3 4.8.12, cvc5 1.0)", *prop, *tier),
-			"trusted_base":  trustedBase,
-			"functions":     fnInfo,
-			"by_solver":     bySolver,
-			"solver_time_s": solverTime,
-			"generated_obligations": len(all),
-			"unclaimed_undecided":   undecided,
-			"known_findings":        knownLines,
-			"cover_ok":              coverOK,
-			"cover_unreachable":     coverFail,
-			"cover_inconclusive":    coverUnknown,
-			"covers_checked":        coversChecked,
+			"checker_cmd":                           fmt.Sprintf("/verif/bin/govc check --prop %s --tier %s  (VC generation over go/ssa of /repo working tree; z3 5.1.0, z3 4.8.12, cvc5 1.0)", *prop, *tier),
+			"trusted_base":                          trustedBase,
+			"functions":                             fnInfo,
+			"by_solver":                             bySolver,
+			"solver_time_s":                         solverTime,
+			"generated_obligations":                 len(all),
+			"unclaimed_undecided":                   undecided,
+			"known_findings":                        knownLines,
+			"cover_ok":                              coverOK,
+			"cover_unreachable":                     coverFail,
+			"cover_inconclusive":                    coverUnknown,
+			"covers_checked":                        coversChecked,
 			"unclaimed_not_attempted_in_quick_tier": notAttempted,
-			"samples":               samples,
-			"abstracted":            ab,
-			"residual_not_decided":  cfg.Residual,
-			"load_s":                loadS, "vcgen_s": genS,
+			"samples":                               samples,
+			"abstracted":                            ab,
+			"residual_not_decided":                  cfg.Residual,
+			"load_s":                                loadS, "vcgen_s": genS,
 		},
 		"assumptions": assumptions,
 		"wall_s":      time.Since(t0).Seconds(),
